@@ -62,6 +62,12 @@ def bytearray_decode(self: "arr", encoding: "str") -> "seq[char]":
 @contract("fcp.serde:_decode_str")
 def _decode_str(buffer: "_Buffer", type: "ref:StringType") -> "seq[char]":
     fresh("v", "dyn")
+    fresh("fb", "seq[int]")
+    # C16: a buffer that is a prefix of an input holding v here, and that ends before v's image does, makes the decoder raise
+    must_raise_if(is_prefix(buffer.gbits, fb) and d_is_str(v) and buffer.bitaddr + 32 + 8 * size(d_chars(v)) <= size(fb)
+                  and val_bits(fb, buffer.bitaddr, 32) == size(d_chars(v))
+                  and size(buffer.gbits) < buffer.bitaddr + 32 + 8 * size(d_chars(v)))
+    use_lemma(val_prefix_if(buffer.gbits, fb, old(buffer.bitaddr), 32))
     # C16: the count prefix and every announced character must be inside the input
     must_raise_if(buffer.bitaddr + 32 > 8 * arr_len(buffer.buffer))
     must_raise_if(buffer.bitaddr + 32 <= 8 * arr_len(buffer.buffer)
@@ -106,12 +112,18 @@ def _decode_array(buffer: "_Buffer", fcp: "ref:FcpV2", type: "ref:ArrayType") ->
     # C16: a normal return consumed at least the minimal image and nothing outside the input
     ensures(buffer.bitaddr >= old(buffer.bitaddr) + type.size * min_wire(fcp, type.underlying_type))
     ensures(buffer.bitaddr <= 8 * arr_len(buffer.buffer) or buffer.bitaddr == old(buffer.bitaddr))
-    ghost_arg("_decode", v=d_list(v)[it])
+    # C16: truncated input (ghost fb: the full input the buffer is a prefix of)
+    fresh("fb", "seq[int]")
+    must_raise_if(short_in(fcp, type, buffer.gbits, fb, buffer.bitaddr, v))
+    ghost_arg("_decode", v=d_list(v)[it], fb=fb)
+    lemma_after("_decode", loc_if(fcp, type.underlying_type, buffer.gbits, fb, old(buffer.bitaddr), d_list(v)[it]))
     option("loop0_locals", {"data": "seq[dyn]"})
     loop(0, over="range(type.size)",
          invariant=lambda it: buffer.bitaddr >= old(buffer.bitaddr)
          and buffer.bitaddr >= old(buffer.bitaddr) + it * min_wire(fcp, type.underlying_type)
          and (buffer.bitaddr <= 8 * arr_len(buffer.buffer) or buffer.bitaddr == old(buffer.bitaddr))
+         and implies(trunc_pre(fcp, type, buffer.gbits, fb, old(buffer.bitaddr), v),
+                     buffer.bitaddr == old(buffer.bitaddr) + len(wire_elems(fcp, type.underlying_type, d_list(v), it)))
          and implies(
              conforms(fcp, type, v) and starts(fcp, type, buffer.gbits, old(buffer.bitaddr), v),
              buffer.bitaddr == old(buffer.bitaddr) + len(wire_elems(fcp, type.underlying_type, d_list(v), it))
@@ -136,10 +148,19 @@ def _decode_dynamic_array(buffer: "_Buffer", fcp: "ref:FcpV2", type: "ref:Dynami
     ensures(buffer.bitaddr >= old(buffer.bitaddr) + 32 and buffer.bitaddr <= 8 * arr_len(buffer.buffer))
     # C16 "work bounded by the input length": no more elements than input bits (fails for zero-width element types: KF-F23)
     ensures(size(result) <= 8 * arr_len(buffer.buffer))
-    ghost_arg("_decode", v=d_list(v)[it])
+    # C16: truncated input (ghost fb: the full input the buffer is a prefix of)
+    fresh("fb", "seq[int]")
+    must_raise_if(short_in(fcp, type, buffer.gbits, fb, buffer.bitaddr, v))
+    use_lemma(val_prefix_if(buffer.gbits, fb, old(buffer.bitaddr), 32))
+    ghost_arg("_decode", v=d_list(v)[it], fb=fb)
+    lemma_after("_decode", loc_if(fcp, type.underlying_type, buffer.gbits, fb, old(buffer.bitaddr), d_list(v)[it]))
+    lemma_after("_decode_builtin_unsigned", val_prefix_if(buffer.gbits, fb, old(buffer.bitaddr), 32))
     option("loop0_locals", {"data": "seq[dyn]"})
     loop(0, over="range(len)",
          invariant=lambda it: buffer.bitaddr >= old(buffer.bitaddr) + 32
+         and implies(trunc_pre(fcp, type, buffer.gbits, fb, old(buffer.bitaddr), v),
+                     len == size(d_list(v))
+                     and buffer.bitaddr == old(buffer.bitaddr) + 32 + size(wire_elems(fcp, type.underlying_type, d_list(v), it)))
          and buffer.bitaddr >= old(buffer.bitaddr) + 32 + it * min_wire(fcp, type.underlying_type)
          and (min_wire(fcp, type.underlying_type) <= 0 or buffer.bitaddr >= old(buffer.bitaddr) + 32 + it)
          and buffer.bitaddr <= 8 * arr_len(buffer.buffer) and size(data) == it
@@ -152,6 +173,9 @@ def _decode_dynamic_array(buffer: "_Buffer", fcp: "ref:FcpV2", type: "ref:Dynami
 @contract("fcp.serde:_decode_optional")
 def _decode_optional(buffer: "_Buffer", fcp: "ref:FcpV2", type: "ref:OptionalType") -> "dyn":
     fresh("v", "dyn")
+    fresh("fb", "seq[int]")
+    must_raise_if(short_in(fcp, type, buffer.gbits, fb, buffer.bitaddr, v))      # C16
+    use_lemma(val_prefix_if(buffer.gbits, fb, old(buffer.bitaddr), 8))
     must_raise_if(buffer.bitaddr + 8 > 8 * arr_len(buffer.buffer))     # C16: a presence flag that is not there
     requires(DecPre(buffer.buffer, buffer.gbits, buffer.bitaddr))
     requires(wf_type(fcp, type))
@@ -162,7 +186,7 @@ def _decode_optional(buffer: "_Buffer", fcp: "ref:FcpV2", type: "ref:OptionalTyp
     ensures(implies(conforms(fcp, type, v) and starts(fcp, type, buffer.gbits, old(buffer.bitaddr), v),
                     result == v and buffer.bitaddr == old(buffer.bitaddr) + len(wire(fcp, type, v))))
     ensures(buffer.bitaddr >= old(buffer.bitaddr) + 8 and buffer.bitaddr <= 8 * arr_len(buffer.buffer))     # C16
-    ghost_arg("_decode", v=v)
+    ghost_arg("_decode", v=v, fb=fb)
 
 
 @contract("fcp.serde:_decode_struct")
@@ -179,15 +203,22 @@ def _decode_struct(buffer: "_Buffer", fcp: "ref:FcpV2", name: "str") -> "dyn":
                     result == v and buffer.bitaddr == old(buffer.bitaddr) + len(wire_struct(fcp, name, v))))
     ensures(buffer.bitaddr >= old(buffer.bitaddr) + min_fields(fcp, sorted_fields(struct_of(fcp, name)), len(sorted_fields(struct_of(fcp, name)))))
     ensures(buffer.bitaddr <= 8 * arr_len(buffer.buffer) or buffer.bitaddr == old(buffer.bitaddr))     # C16
-    ghost_arg("_decode", v=dyn_get(v, field.name))
+    # C16: truncated input (ghost fb: the full input the buffer is a prefix of)
+    fresh("fb", "seq[int]")
+    must_raise_if(is_prefix(buffer.gbits, fb) and conforms_struct(fcp, name, v) and starts_struct(fcp, name, fb, buffer.bitaddr, v)
+                  and size(buffer.gbits) < buffer.bitaddr + size(wire_struct(fcp, name, v)))
+    ghost_arg("_decode", v=dyn_get(v, field.name), fb=fb)
+    lemma_after("_decode", loc_if(fcp, field.type, buffer.gbits, fb, old(buffer.bitaddr), dyn_get(v, field.name)))
     option("no_unfold", ["conforms", "starts", "wire", "wf_type", "min_wire"])
     option("loop0_locals", {"data": "dyn"})
     loop(0, over="sorted(struct.fields, key=lambda field: field.field_id)",
          invariant=lambda it: buffer.bitaddr >= old(buffer.bitaddr)
+         and implies(trunc_hyp(fcp, name, buffer.gbits, fb, old(buffer.bitaddr), v),
+                     buffer.bitaddr == old(buffer.bitaddr) + len(wire_fields(fcp, sorted_fields(struct_of(fcp, name)), v, it)))
          and buffer.bitaddr >= old(buffer.bitaddr) + min_fields(fcp, sorted_fields(struct_of(fcp, name)), it)
          and (buffer.bitaddr <= 8 * arr_len(buffer.buffer) or buffer.bitaddr == old(buffer.bitaddr))
          and d_is_dict(data) and implies(
-             conforms_struct(fcp, name, v) and starts_struct(fcp, name, buffer.gbits, old(buffer.bitaddr), v),
+             rt_hyp(fcp, name, buffer.gbits, old(buffer.bitaddr), v),
              buffer.bitaddr == old(buffer.bitaddr) + len(wire_fields(fcp, sorted_fields(struct_of(fcp, name)), v, it))
              and forall("str", lambda key: dyn_get(data, key) == ite(
                  name_among(sorted_fields(struct_of(fcp, name)), key, it), dyn_get(v, key), d_absent()))))
@@ -196,6 +227,10 @@ def _decode_struct(buffer: "_Buffer", fcp: "ref:FcpV2", name: "str") -> "dyn":
 @contract("fcp.serde:_decode")
 def _decode(buffer: "_Buffer", fcp: "ref:FcpV2", type: "ref:Type") -> "dyn":
     fresh("v", "dyn")
+    fresh("fb", "seq[int]")
+    # C16: reading a buffer that is a prefix of an input holding a conforming v at the cursor, and that ends before v's image
+    # does, raises (for every type, by recursion over the type)
+    must_raise_if(short_in(fcp, type, buffer.gbits, fb, buffer.bitaddr, v))
     requires(DecPre(buffer.buffer, buffer.gbits, buffer.bitaddr))
     requires(wf_type(fcp, type))
     modifies(buffer.bitaddr)
@@ -204,14 +239,14 @@ def _decode(buffer: "_Buffer", fcp: "ref:FcpV2", type: "ref:Type") -> "dyn":
     no_raise_if(conforms(fcp, type, v) and starts(fcp, type, buffer.gbits, buffer.bitaddr, v))
     ensures(implies(conforms(fcp, type, v) and starts(fcp, type, buffer.gbits, old(buffer.bitaddr), v),
                     result == v and buffer.bitaddr == old(buffer.bitaddr) + len(wire(fcp, type, v))))
-    ghost_arg("_decode_str", v=v)
     option("opaque", ["wire_struct", "conforms_struct", "starts_struct", "wf_struct"])
     ensures(buffer.bitaddr >= old(buffer.bitaddr) + min_wire(fcp, type))                                # C16: progress
     ensures(buffer.bitaddr <= 8 * arr_len(buffer.buffer) or buffer.bitaddr == old(buffer.bitaddr))      # C16: in bounds
-    ghost_arg("_decode_struct", v=v)
-    ghost_arg("_decode_array", v=v)
-    ghost_arg("_decode_dynamic_array", v=v)
-    ghost_arg("_decode_optional", v=v)
+    ghost_arg("_decode_struct", v=v, fb=fb)
+    ghost_arg("_decode_array", v=v, fb=fb)
+    ghost_arg("_decode_dynamic_array", v=v, fb=fb)
+    ghost_arg("_decode_optional", v=v, fb=fb)
+    ghost_arg("_decode_str", v=v, fb=fb)
 
 
 @contract("fcp.serde:_Buffer.push_bytes")
@@ -232,6 +267,11 @@ def decode(fcp: "ref:FcpV2", name: "str", data: "arr") -> "dyn":
     ensures(implies(conforms_struct(fcp, name, v) and starts_struct(fcp, name, bits_of_bytes(data), 0, v), result == v))
     # C16: decode returns only if the input holds at least the minimal image of the struct (for EVERY input, no ghost value)
     ensures(min_fields(fcp, sorted_fields(struct_of(fcp, name)), len(sorted_fields(struct_of(fcp, name)))) <= 8 * arr_len(data))
+    # C16: an input that is a prefix of a longer input holding the image of a conforming v, and that ends before that image
+    # does, makes decode() raise (ghost fb: the bits of the longer input)
+    fresh("fb", "seq[int]")
+    must_raise_if(is_prefix(bits_of_bytes(data), fb) and conforms_struct(fcp, name, v) and starts_struct(fcp, name, fb, 0, v)
+                  and 8 * arr_len(data) < size(wire_struct(fcp, name, v)))
     option("opaque", ["wire_struct", "conforms_struct", "starts_struct", "wf_struct"])
-    ghost_arg("_decode_struct", v=v)
+    ghost_arg("_decode_struct", v=v, fb=fb)
     lemma_before("_decode_struct", unpack_rep(data))
